@@ -58,9 +58,19 @@ where
 
     /// Resolves a relative offset (relative to another TextSelection) to an absolute one (in terms of to the underlying TextResource)
     fn absolute_offset(&'slf self, offset: &Offset) -> Result<Offset, StamError> {
+        let begin = self.beginaligned_cursor(&offset.begin)?;
+        let end = self.beginaligned_cursor(&offset.end)?;
+        if end < begin {
+            //(an offset whose end lies before its begin denotes no text)
+            return Err(StamError::InvalidOffset(
+                offset.begin,
+                offset.end,
+                "absolute_offset(): end precedes begin",
+            ));
+        }
         Ok(Offset::simple(
-            self.absolute_cursor(self.beginaligned_cursor(&offset.begin)?),
-            self.absolute_cursor(self.beginaligned_cursor(&offset.end)?),
+            self.absolute_cursor(begin),
+            self.absolute_cursor(end),
         ))
     }
 
